@@ -5,4 +5,5 @@ cd "$(dirname "$0")/harness"
 export CARGO_NET_OFFLINE=true
 RUSTFLAGS="--cfg jubako_verif" cargo build --offline --release 2>&1 | grep -v "^warning\|^ *|\|^ *=\|^ *-->\|^$\|^[0-9 ]*|\|^\.\.\." | tail -5
 RUSTFLAGS="--cfg jubako_verif" cargo build --offline --bin faultmc --bin viewmc 2>&1 | grep -v "^warning\|^ *|\|^ *=\|^ *-->\|^$\|^[0-9 ]*|\|^\.\.\." | tail -3
+cc -shared -fPIC -O1 -o ../shim/faultfs.so ../shim/faultfs.c -ldl -lpthread
 echo "setup done"
